@@ -227,6 +227,24 @@ def matrix_duplicate_fields():
     return out
 
 
+def list_of_blocks():
+    """lists whose members are mappings (`f: [{a: x}, {b: y}]`), incl. members that are one
+    all()-list (class D28 reaching list members), under plain / all() / of() keys"""
+    out = []
+    docs = [{"f": [{"k": 1}, {"k": 2}]}, {"f": [{"k": 1}]}, {"f": {"k": 1}}, {"f": {"k": [1, 2]}}, {"f": [{"k": 1, "g": "x"}, {"k": 2}]},
+            {"f": [{"g": "x"}]}, {"f": []}, {"f": [1, "x"]}, {"f": "x"}, {"f": None}, {}, {"f": [{"k": "ab"}, {"k": "b"}]}, {"f": {"k": "ab", "g": "x"}}]
+    members = [{"all(k)": [1, 2]}, {"all(k)": ["*a*", "?b"]}, {"k": 1}, {"g": "x"}, {"k": [1, 2]}, {"k": 1, "g": "x"}, {"of(k, 1)": [1, 2]}, {"k": None},
+               {"all(k)": ["*a*", "*b*"]}]
+    for i, a in enumerate(members):
+        out.append(({"A": {"f": [a]}, "condition": "A"}, docs))
+        out.append(({"A": {"f": [a]}, "condition": "not A"}, docs))
+        for b in members[i:i + 3]:
+            for key in ("f", "all(f)", "of(f, 1)", "of(f, 2)"):
+                out.append(({"A": {key: [a, b]}, "condition": "A"}, docs))
+        out.append(({"A": {"n": {"f": [a, members[(i + 1) % len(members)]]}}, "condition": "A"}, [{"n": d} for d in docs] + [{"n": [d for d in docs[:4]]}, {}]))
+    return out
+
+
 def sort_comparators():
     out = []
     kinds = {"starts": ["a*", "bb*", "ccc*"], "ends": ["*a", "*bb", "*ccc"], "contains": ["*a*", "*bb*", "*ccc*"], "exact": ["a", "bb", "ccc"],
@@ -295,7 +313,7 @@ def loader_errors():
 FAMILIES = [("scalar_casts", scalar_casts), ("list_casts", list_casts), ("cond_casts", cond_casts),
             ("quantified_cast_bodies", quantified_cast_bodies), ("many_needles", many_needles), ("nested_matrix", nested_matrix), ("nested_and_merge", nested_and_merge), ("wide_matrix", wide_matrix),
             ("wide_matrix_quant", wide_matrix_quant), ("matrix_duplicate_fields", matrix_duplicate_fields),
-            ("sort_comparators", sort_comparators), ("sort_ties", sort_ties), ("already_optimised", already_optimised), ("loader_errors", loader_errors)]
+            ("sort_comparators", sort_comparators), ("sort_ties", sort_ties), ("list_of_blocks", list_of_blocks), ("already_optimised", already_optimised), ("loader_errors", loader_errors)]
 
 
 def all_cases(skip=()):
